@@ -75,7 +75,10 @@ def run_variant(args):
                 known = core_mod.load_known()
                 kk = set((k['property'], k['rule'], k['key']) for k in known.get('known', []))
                 viols = [o for o in rep.obligations if not o.ok and (pid, o.rule, o.key) not in kk]
-                res[pid] = ('viol' if viols else 'ok', [(o.rule, o.key, o.detail[:160]) for o in viols])
+                if not viols and rep.gaps:
+                    res[pid] = ('analysis-error', [('', '', '; '.join(rep.gaps)[:300])])
+                else:
+                    res[pid] = ('viol' if viols else 'ok', [(o.rule, o.key, o.detail[:160]) for o in viols])
             except core_mod.AnalysisError as e:
                 res[pid] = ('analysis-error', [('', '', str(e)[:300])])
             except Exception as e:   # checker crash
